@@ -76,7 +76,7 @@ def r2(c):
         if s.extra.get('def'):
             defs.add(norm(s.extra['def']))
         if 'promoted' in s.extra:
-            pb = P.promoted(b, s.extra['promoted'])
+            pb = P.promoted_of(b, s.extra)
             if pb is not None:
                 for i, st in pb.assigns():
                     for o in st['rv'].get('a', []):
@@ -98,8 +98,13 @@ def r3(c):
     ups = [cs for cs in b.calls() if cs.callee.endswith('::update')]
     pdu_reads = [cs for cs in b.calls(RB + '::read') if q.is_name(b, cs.args[0], 'cursor')]
     crc_reads = [cs for cs in b.calls(RB + '::read_u16_le', RB + '::read_u8', RB + '::read_u16_be') if q.is_name(b, cs.args[0], 'cursor') and pdu_reads and b.dominates(pdu_reads[0].ret, cs.node)]
-    xs = [x for x in q.exits(b) if x['kind'] == 'agg' and x['variant'] == 'Ok' and q.agg_variant_of(b, x['rv']['a'][0]) == ('core::option::Option', 'Some')]
-    c.ob('frame-exits', len(xs) == 1, 'there is one Ok(Some(frame)) exit', str(len(xs)), loc_of(b))
+    # where a frame is handed out: `Some(frame)` with a Frame payload (wherever the enclosing Ok(..) is written)
+    xs = []
+    for i, st_ in b.aggregates('core::option::Option', 'Some'):
+        a0 = st_['rv']['a'][0]
+        if a0.get('k') in ('copy', 'move') and not a0['pl']['p'] and b.locals[a0['pl']['l']] == 'rodbus::common::frame::Frame':
+            xs.append({'node': ('b', i), 'stmt': st_})
+    c.ob('frame-exits', len(xs) == 1, 'there is one place where a frame is handed out (Some(frame))', str(len(xs)), loc_of(b))
     c.ob('trailer-read', 1 <= len(crc_reads) <= 2 and all(q.outcomes(b, cs).get('success') for cs in crc_reads), 'the CRC trailer is read (checked) from the cursor after the PDU', '%d reads after the PDU' % len(crc_reads), loc_of(b))
     rle = crc_reads[0] if crc_reads else None
 
@@ -139,7 +144,12 @@ def r3(c):
     # state reset on success
     stw = [(i, s) for i, s in b.assigns() if s['pl']['p'] and s['pl']['p'][-1].endswith(':state')]
     start_after = [i for i, s in stw if (s['rv']['r'] == 'agg' and s['rv']['variant'] == 'Start') or (s['rv']['r'] == 'use' and (q.agg_variant_of(b, s['rv']['a'][0]) or ('', ''))[1] == 'Start')]
-    c.ob('state/start-before-return', bool(xs) and any(b.dominates(('b', i), xs[0]['node']) for i in start_after), 'the parser returns to Start before handing out the frame', '%d Start assignments' % len(start_after), loc_of(b))
+    oks = False
+    if xs:
+        sn = {('b', i) for i in start_after}
+        rets = {('b', i) for i in b.return_blocks()}
+        oks = any(b.dominates(n, xs[0]['node']) for n in sn) or (bool(sn) and not (b.reach_set(xs[0]['node'], avoid=sn) & rets))
+    c.ob('state/start-before-return', oks, 'the parser returns to Start whenever it hands out a frame (before building it, or on every path from there to the return)', '%d Start assignments' % len(start_after), loc_of(b))
     r = P.fn(RP + '::reset')
     ag = [s for _, s in r.aggregates(PSTATE)]
     c.ob('reset', len(ag) == 1 and ag[0]['rv']['variant'] == 'Start', 'reset returns the parser to Start', '', loc_of(r))
